@@ -126,7 +126,12 @@ def run_check(property_id: str, tier: str, args) -> int:
         engine: Engine = entry["engine"]
         runs = entry[tier] if args.runs is None else args.runs
         budget = entry.get(f"{tier}_wall_s")
-        res = run_batch(engine, seed, runs, tier=tier, avoid=avoid, jobs=args.jobs, wall_budget_s=budget)
+        res = run_batch(engine, seed, runs, tier=tier, avoid=avoid, jobs=args.jobs, wall_budget_s=budget, stop_on_violation=not args.keep_going)
+        if args.keep_going and res.violations:
+            hist = {}
+            for _i, o, _c in res.violations:
+                hist[o.get('cls')] = hist.get(o.get('cls'), 0) + 1
+            print('  violation classes:', sorted(hist.items(), key=lambda kv: -kv[1]))
         batches.append(res)
         engines.append(engine)
         rate = res.runs / res.wall_s * 3600 if res.wall_s > 0 else 0
@@ -251,6 +256,7 @@ def main(argv=None) -> int:
     parser.add_argument("--runs", type=int)
     parser.add_argument("--jobs", type=int)
     parser.add_argument("--no-shrink", action="store_true")
+    parser.add_argument("--keep-going", action="store_true", help="development only: do not stop at the first violating chunk")
     parser.add_argument("--enable", help="development only: features to switch back on")
     parser.add_argument("--avoid", help="development only: extra generator features to switch off (or all)")
     args = parser.parse_args(argv)
